@@ -59,7 +59,9 @@ def isPrefixOf : List Nat → List Nat → Bool
     `db:` — the generator scripts of the tables skip the database namespace:
     grammar/gen_allowed_children.py `if ns == DBNS: continue`, and the same line in
     gen_allows_text.py, gen_required_attrs.py (`if e.ns == DBNS: continue`), gen_allowed_attrs.py;
-    there is no odf/db.py. -/
+    there is no odf/db.py.  (Since /repo d71800a `office:database` — an `office:` element — has its
+    rows and a factory; its six children are `db:` elements, which can be attached to it but have
+    no rows and no factories of their own: that is this exception.) -/
 def ExceptedPrefixes : List Nat := [n!"db:"]
 
 def prefixExcepted (e : Nat) : Bool := ExceptedPrefixes.any fun p => isPrefixOf (bytes p) (bytes e)
@@ -86,18 +88,9 @@ def Exceptions : List Row := [
 ]
 
 def KnownFindings : List Row := [
-  -- database documents are not supported (no rows, no factory); only the db: namespace is documented as skipped
-  ⟨.children, n!"office:body", n!"office:database"⟩,
-  ⟨.children, n!"office:database", STAR⟩,
-  ⟨.factory, n!"office:database", NOITEM⟩,
-  -- schema version skew: tables follow ODF 1.2 OS, the shipped schema is cd04 (table:table-template)
-  ⟨.children, n!"office:styles", n!"table:table-template"⟩,
-  ⟨.children, n!"office:master-styles", n!"table:table-template"⟩,
-  ⟨.required, n!"table:table-template", n!"table:first-row-start-column"⟩,
-  ⟨.required, n!"table:table-template", n!"table:first-row-end-column"⟩,
-  ⟨.required, n!"table:table-template", n!"table:last-row-start-column"⟩,
-  ⟨.required, n!"table:table-template", n!"table:last-row-end-column"⟩,
-  -- manifest tables were generated from the 1.0 manifest schema (grammar/Makefile); the shipped 1.2-cd1 manifest schema adds this
+  -- The tables were generated from the 1.0 manifest schema (grammar/Makefile); the shipped 1.2-cd1 manifest schema
+  -- adds manifest:start-key-generation and manifest:key-size.  Not repairable in the tables alone:
+  -- tests/testconverters.py::testConverters demands a converter in odf/attrconverters.py for every table attribute.
   ⟨.children, n!"manifest:encryption-data", n!"manifest:start-key-generation"⟩,
   ⟨.children, n!"manifest:start-key-generation", STAR⟩,
   ⟨.attrs, n!"manifest:key-derivation", n!"manifest:key-size"⟩,
@@ -105,78 +98,10 @@ def KnownFindings : List Row := [
   ⟨.attrs, n!"manifest:start-key-generation", n!"manifest:start-key-generation-name"⟩,
   ⟨.required, n!"manifest:start-key-generation", n!"manifest:start-key-generation-name"⟩,
   ⟨.factory, n!"manifest:start-key-generation", NOITEM⟩,
-  -- no allowed_attributes row: the generator loses elements declared with a <choice> of names
-  ⟨.attrs, n!"text:page-count", n!"style:num-format"⟩,
-  ⟨.attrs, n!"text:page-count", n!"style:num-letter-sync"⟩,
-  ⟨.attrs, n!"text:paragraph-count", n!"style:num-format"⟩,
-  ⟨.attrs, n!"text:paragraph-count", n!"style:num-letter-sync"⟩,
-  ⟨.attrs, n!"text:word-count", n!"style:num-format"⟩,
-  ⟨.attrs, n!"text:word-count", n!"style:num-letter-sync"⟩,
-  ⟨.attrs, n!"text:character-count", n!"style:num-format"⟩,
-  ⟨.attrs, n!"text:character-count", n!"style:num-letter-sync"⟩,
-  ⟨.attrs, n!"text:table-count", n!"style:num-format"⟩,
-  ⟨.attrs, n!"text:table-count", n!"style:num-letter-sync"⟩,
-  ⟨.attrs, n!"text:image-count", n!"style:num-format"⟩,
-  ⟨.attrs, n!"text:image-count", n!"style:num-letter-sync"⟩,
-  ⟨.attrs, n!"text:reference-ref", n!"text:ref-name"⟩,
-  ⟨.attrs, n!"text:reference-ref", n!"text:reference-format"⟩,
-  -- schema version skew: chart:error-lower/upper-range sit on chart:error-indicator in the shipped cd04 schema, on style:chart-properties in the tables
-  ⟨.attrs, n!"chart:error-indicator", n!"chart:error-lower-range"⟩,
-  ⟨.attrs, n!"chart:error-indicator", n!"chart:error-upper-range"⟩,
-  ⟨.attrs, n!"style:chart-properties", n!"chart:error-lower-range"⟩,
-  ⟨.attrs, n!"style:chart-properties", n!"chart:error-upper-range"⟩,
-  -- form:list-value is declared once per value type; the generator kept one declaration
-  ⟨.attrs, n!"form:list-value", n!"office:value"⟩,
-  ⟨.attrs, n!"form:list-value", n!"office:date-value"⟩,
-  ⟨.attrs, n!"form:list-value", n!"office:time-value"⟩,
-  ⟨.attrs, n!"form:list-value", n!"office:boolean-value"⟩,
-  ⟨.attrs, n!"form:list-value", n!"office:currency"⟩,
-  ⟨.required, n!"form:list-value", n!"office:string-value"⟩,
-  -- schema version skew: style:display-name on number styles (written by odf.number via StyleElement) is not in the shipped cd04 schema
-  ⟨.attrs, n!"number:number-style", n!"style:display-name"⟩,
-  ⟨.attrs, n!"number:currency-style", n!"style:display-name"⟩,
-  ⟨.attrs, n!"number:percentage-style", n!"style:display-name"⟩,
-  ⟨.attrs, n!"number:date-style", n!"style:display-name"⟩,
-  ⟨.attrs, n!"number:time-style", n!"style:display-name"⟩,
-  ⟨.attrs, n!"number:boolean-style", n!"style:display-name"⟩,
-  ⟨.attrs, n!"number:text-style", n!"style:display-name"⟩,
-  -- table requires xml:id, the shipped cd04 schema makes it optional (schema version skew)
-  ⟨.required, n!"text:changed-region", n!"xml:id"⟩,
-  ⟨.required, n!"form:text", n!"xml:id"⟩,
-  ⟨.required, n!"form:textarea", n!"xml:id"⟩,
-  ⟨.required, n!"form:password", n!"xml:id"⟩,
-  ⟨.required, n!"form:file", n!"xml:id"⟩,
-  ⟨.required, n!"form:formatted-text", n!"xml:id"⟩,
-  ⟨.required, n!"form:number", n!"xml:id"⟩,
-  ⟨.required, n!"form:date", n!"xml:id"⟩,
-  ⟨.required, n!"form:time", n!"xml:id"⟩,
-  ⟨.required, n!"form:fixed-text", n!"xml:id"⟩,
-  ⟨.required, n!"form:combobox", n!"xml:id"⟩,
-  ⟨.required, n!"form:listbox", n!"xml:id"⟩,
-  ⟨.required, n!"form:button", n!"xml:id"⟩,
-  ⟨.required, n!"form:image", n!"xml:id"⟩,
-  ⟨.required, n!"form:checkbox", n!"xml:id"⟩,
-  ⟨.required, n!"form:radio", n!"xml:id"⟩,
-  ⟨.required, n!"form:frame", n!"xml:id"⟩,
-  ⟨.required, n!"form:image-frame", n!"xml:id"⟩,
-  ⟨.required, n!"form:hidden", n!"xml:id"⟩,
-  ⟨.required, n!"form:grid", n!"xml:id"⟩,
-  ⟨.required, n!"form:value-range", n!"xml:id"⟩,
-  ⟨.required, n!"form:generic-control", n!"xml:id"⟩,
-  -- not enforced: the generator (grammar/gen_required_attrs.py) ignores attributes under <choice>
-  ⟨.required, n!"text:variable-set", n!"office:value-type"⟩,
-  ⟨.required, n!"text:user-field-decl", n!"office:value-type"⟩,
-  ⟨.required, n!"text:index-entry-tab-stop", n!"style:type"⟩,
-  ⟨.required, n!"table:data-pilot-field", n!"table:orientation"⟩,
-  ⟨.required, n!"table:data-pilot-sort-info", n!"table:sort-mode"⟩,
-  ⟨.required, n!"table:data-pilot-field-reference", n!"table:member-type"⟩,
-  ⟨.required, n!"draw:regular-polygon", n!"draw:concave"⟩,
-  ⟨.required, n!"form:property", n!"office:value-type"⟩,
-  ⟨.required, n!"form:list-property", n!"office:value-type"⟩,
-  ⟨.required, n!"style:style", n!"style:family"⟩,
-  ⟨.required, n!"style:default-style", n!"style:family"⟩
-  -- (the nine `factory:` rows for draw:fill-image … dr3d:light were repaired in /repo by 9cb26c9 and
-  --  3268ede and are gone from this list)
+  -- draw:concave is required in both alternatives of the schema's <choice>; the table does not list it, and
+  -- tests/testlengths.py::test_calls / tests/teststyleref.py::testCalls pin the bare call draw.RegularPolygon().
+  ⟨.required, n!"draw:regular-polygon", n!"draw:concave"⟩
+  -- (72 further rows were repaired in /repo by d71800a, nine factory rows by 9cb26c9 / 3268ede.)
 ]
 
 def inExceptions (k : Kind) (e x : Nat) : Bool := prefixExcepted e || inRows Exceptions k e x
